@@ -325,6 +325,11 @@ CreateAs(u, k) ==
           /\ UNCHANGED ended
   /\ UNCHANGED <<disk, dirty, temp, envn, enc>>
 
+\* @z := noop() : a user-defined function whose body runs off its end (no RETURN) changes nothing - in particular it is
+\* not a transaction boundary; @z := ins_t(k) : the function's body inserts (k, 1) into t, like the statement itself
+CallNoop == out' = Ok /\ UNCHANGED <<disk, cache, dirty, created, temp, ended, envn, enc>>
+CallIns(t, k) == Insert1(t, k, 1)
+
 \* CREATE TABLE NewFile (id, v)
 Create ==
   /\ IF ~disk[NewFile].absent \/ NewFile \in created
@@ -369,7 +374,9 @@ EnvCommit(f) ==
   /\ UNCHANGED <<cache, dirty, created, temp, ended, enc>>
 
 \* the harness reads the file itself (no csvq involved)
-Disk(f) == out' = Val(Show(disk[f])) /\ UNCHANGED <<disk, cache, dirty, created, temp, ended, envn, enc>>
+\* (a table created and not yet committed is a locked file whose contents are unspecified: a placeholder, or what a
+\* COMMIT that failed later had already written into it)
+Disk(f) == out' = (IF f \in created THEN Val(<<"CREATED">>) ELSE Val(Show(disk[f]))) /\ UNCHANGED <<disk, cache, dirty, created, temp, ended, envn, enc>>
 
 -----------------------------------------------------------------------------
 Do(a) ==
@@ -400,6 +407,8 @@ Do(a) ==
        [] a.act = "selectfn" -> SelectFn(a.t)
        [] a.act = "setenc"   -> SetEnc(a.t)
        [] a.act = "createas" -> CreateAs(a.u, a.k)
+       [] a.act = "callnoop" -> CallNoop
+       [] a.act = "callins"  -> CallIns(a.t, a.k)
        [] a.act = "create"   -> Create
        [] a.act = "commit"   -> Commit
        [] a.act = "rollback" -> Rollback
@@ -425,6 +434,8 @@ Actions ==
   \cup {A("selectfn", t, 0, 0) : t \in AllFiles}
   \cup {A("setenc", t, 0, 0) : t \in Tables}
   \cup {A3("createas", u, k) : u \in Tables \ {NewFile}, k \in 0..3}
+  \cup {A("callnoop", "", 0, 0)}
+  \cup {A("callins", t, k, 0) : t \in Tables \ {NewFile}, k \in Keys}
   \cup {A(x, "", 0, 0) : x \in {"create", "commit", "rollback"}}
   \cup {A("env", f, 0, 0) : f \in Files}
   \cup {A("disk", f, 0, 0) : f \in AllFiles}
